@@ -5,7 +5,7 @@
 set -e
 cd /verif
 mkdir -p build evidence replays
-for v in seq par tsan; do
+for v in seq par tsan ser; do
   lib/buildrepo.sh $v
   make -C drive VARIANT=$v -j16 > build/$v/drive.log 2>&1 || { tail -30 build/$v/drive.log; exit 2; }
 done
